@@ -117,6 +117,12 @@ def directed(rng, v, siblings=(), budget=24):
                 for i in {len(v) - ln, len(v) - 2 * ln if len(v) > 2 * ln else 0, rng.randrange(len(v) - ln)}:
                     fill = rng.choice([bytes(ln), bytes(ln - 1) + b'\x01', b'\xff' * ln])
                     out.append(v[:i] + fill + v[i + ln:])
+    # host names: a label turned into a malformed / truncated / empty ACE (punycode) label
+    for m in list(re.finditer(rb'[a-z0-9-]{3,}', v))[:3]:
+        a, b = m.span()
+        for lab in (b'xn--', b'xn--a-', b'xn--' + v[a:b][:-1] + b'-', b'xn--99999999a', b'xn--bcher-kv'):
+            lab = lab[:b - a].ljust(b - a, b'a') if not text else lab
+            out.append(v[:a] + lab + v[b:])
     for s in list(siblings)[:4]:
         out.append(s)
     rng.shuffle(out)
